@@ -116,6 +116,14 @@ CHECKS = {
         note="D5 (FP control word not part of the context) is a listed known finding decided by a separate fp mode; recycling is only live in "
              "the plain/TSan flavours.",
         ref="DESIGN.md section 2, C12"),
+    "C19": dict(
+        technique="runtime monitoring: task ledger, suspended-interval mask checked inside every task body, active-worker count, "
+                  "cycle-progress watchdog for calls that do not return; hook delays in the sleeping/notify window",
+        text="Exploration: per case hundreds of suspend/resume cycles of processing units (with tasks blocked on the suspended worker and "
+             "work hinted to it), of the whole pool and of the runtime, concurrent with OS-thread and task submitters, on all 8 policies "
+             "and pool sizes 2-12; refused operations (no elasticity) must report an error and leave every worker running.",
+        note="D7 found here and fixed. Worker 0 of the pool is never suspended individually.",
+        ref="DESIGN.md section 2, C19"),
 }
 
 NOT_YET = "not claimed yet: harness under construction in this session (see DESIGN.md section 2)"
